@@ -84,3 +84,13 @@ Theorem C13_check_results_rank_independent : forall (F M : Type) (bad : F -> M -
   dist_check_results bad funs matches shufidx P = dist_check_results bad funs matches shufidx 1.
 Proof. exact @check_results_rank_independent. Qed.
 Print Assumptions C13_check_results_rank_independent.
+
+(* deadlock freedom of the collective structure: in every reachable, unfinished state some rank can
+   take a progress step (deposit or pick-up); the measure is bounded by 2*|prog|*P, so every fair
+   execution finishes, and then equals the lock-step run by C13_schedule_independent *)
+Theorem C13_deadlock_free :
+  forall (S C : Type) (P : nat) (prog : list (phase S C)) (init : nat -> S) (sched : list nat),
+    (1 <= P)%nat -> let a := arun P prog init sched in
+    ~ finished prog a -> exists r, (r < P)%nat /\ measure S C (astep P prog a r) = Datatypes.S (measure S C a).
+Proof. exact bsp_deadlock_free. Qed.
+Print Assumptions C13_deadlock_free.
